@@ -41,6 +41,9 @@ def run(ctx) -> None:
     # the shadowing family: a name that is a constant outside and a label inside, over a small alphabet, one statement deeper
     asm_mc.design_level(ctx, "shadow", L + 1)
     progs += asm_mc.programs(ctx, "shadow", L + 1)
+    # ... and the same under @= relocation (RAM and ROM run addresses)
+    asm_mc.design_level(ctx, "shadowram", L + 2)
+    progs += asm_mc.programs(ctx, "shadowram", L + 2)
     ctx.extra["tlc_enumerated_programs"] = len(progs)
     n = 500 if ctx.quick else 8000
     progs += [apr.gen_program(ctx.seed * 7919 + k, size=8 + k % 16) for k in range(n)]
